@@ -64,7 +64,7 @@ func runC13(c *Ctx) {
 		"C13.c SGR mouse reports decode to the same button, column, row and press/release/motion",
 		"C13.d gating truth table over modes 1000/1002/1003/1006/1007/alternate screen for press, release, wheel, drag and motion, in both directions; paste brackets only under 2004 and they decode to PasteStart/PasteEnd",
 		"C13.e DECSET/DECRST 1,1000,1002,1003,1006,1007,1049,2004 and ESC = / ESC > change exactly the flag they name",
-		"C13.f chords with one unambiguous legacy encoding round-trip: Enter/Tab/Esc/Backspace/Space, printable ASCII (with Shift for capitals), Ctrl+a..z except h/i/m, Alt+a..z and Alt+0..9",
+		"C13.f chords with one unambiguous legacy encoding round-trip: Enter/Tab/Esc/Backspace/Space, printable ASCII (with Shift for capitals), Ctrl+a..z except h/i/m, Alt+a..z and Alt+0..9; the Ctrl/Alt chords also with Key.Text set (associated text), and Alt+Shift+letter with text (decoding to the chord or to its legacy form Alt+capital)",
 	}
 	c.NotDec = []string{
 		"Ctrl/Alt chords on printable keys outside C13.f (Ctrl+digit, Ctrl+punctuation, Ctrl+Alt+x, Alt+capital: the legacy encoding is ambiguous or not expressible)",
@@ -82,7 +82,7 @@ func runC13(c *Ctx) {
 	c.expect("C13.c", 18)
 	c.expect("C13.d", 16)
 	c.expect("C13.e", 18)
-	c.expect("C13.f", 150)
+	c.expect("C13.f", 230)
 
 	x := c13Setup(c)
 	if x == nil {
@@ -1040,7 +1040,7 @@ func (x *c13Env) ruleF() {
 	}
 	sh, al, ct := x.consts["ModShift"], x.consts["ModAlt"], x.consts["ModCtrl"]
 	keyT := x.typ(x.root, "Key")
-	one := func(label string, ev c13V, code, mods int64, text string) {
+	one := func(label string, ev c13V, code, mods int64, text string, alt ...int64) {
 		v := &c13Verdict{}
 		for cfg := 0; cfg < 4; cfg++ {
 			flags := map[string]bool{"deckpam": cfg&1 != 0, "decckm": cfg&2 != 0}
@@ -1071,6 +1071,8 @@ func (x *c13Env) ruleF() {
 				tx := x.m.fieldOf(evs[0].st, "Text", types.Typ[types.String])
 				if !ok1 || !ok2 || (text != "" && tx.k != c13Str) {
 					v.unk("modes %s: decoded key has fields the evaluator could not compute", cs)
+				} else if len(alt) == 2 && k == alt[0] && m == alt[1] {
+					// the legacy form of the same chord (Shift folded into the capital after ESC)
 				} else if k != code || m != mods || (text != "" && tx.s != text) {
 					v.fail("modes %s: written %q decodes to %s mods %s text %q, want %s mods %s text %q", cs, r.writes, x.kname(k), x.modString(m), tx.s, x.kname(code), x.modString(mods), text)
 				}
@@ -1100,5 +1102,29 @@ func (x *c13Env) ruleF() {
 	}
 	for r := '0'; r <= '9'; r++ {
 		one(fmt.Sprintf("Alt+%c", r), x.keyEv(int64(r), al), int64(r), al, "")
+	}
+	// the same chords as a host with "report associated text" delivers them: Key.Text is set
+	// (to the printable rune, to the shifted rune for Shift chords). The text must not make the
+	// encoder forget a modifier.
+	withText := func(code, shifted, mods int64, text string) c13V {
+		f := map[string]c13V{"Keycode": {k: c13Int, i: code}, "Modifiers": {k: c13Int, i: mods}, "Text": c13str(text)}
+		if shifted != 0 {
+			f["ShiftedCode"] = c13V{k: c13Int, i: shifted}
+		}
+		return x.structV(keyT, f)
+	}
+	for r := 'a'; r <= 'z'; r++ {
+		up := unicode.ToUpper(r)
+		if r != 'h' && r != 'i' && r != 'm' {
+			one(fmt.Sprintf("Ctrl+%c with text %q", r, string(r)), withText(int64(r), 0, ct, string(r)), int64(r), ct, "")
+		}
+		one(fmt.Sprintf("Alt+%c with text %q", r, string(r)), withText(int64(r), 0, al, string(r)), int64(r), al, "")
+		// ESC O / ESC P / ESC X introduce SS3 / DCS / SOS: Alt+Shift+o/p/x has no unambiguous legacy form
+		if r != 'o' && r != 'p' && r != 'x' {
+			one(fmt.Sprintf("Alt+Shift+%c with text %q", r, string(up)), withText(int64(r), int64(up), al|sh, string(up)), int64(r), al|sh, "", int64(up), al)
+		}
+	}
+	for r := '0'; r <= '9'; r++ {
+		one(fmt.Sprintf("Alt+%c with text %q", r, string(r)), withText(int64(r), 0, al, string(r)), int64(r), al, "")
 	}
 }
